@@ -5,6 +5,7 @@ import (
 	"grog/internal/config"
 	"grog/internal/model"
 	"slices"
+	"strconv"
 	"strings"
 )
 
@@ -27,41 +28,54 @@ func GetTargetChangeHash(target model.Target, dependencyHashes []string) (string
 	return fmt.Sprintf("%s_%s", targetDefinitionHash, inputContentHash), err
 }
 
-// hashTargetDefinition computes the configured hash of a single file.
+// hashTargetDefinition computes the configured hash of the target definition.
+// Every component is written with a length prefix (and every list with its
+// element count) so that two different definitions can never produce the same
+// byte stream by shifting bytes between adjacent components.
 func hashTargetDefinition(target model.Target, dependencyHashes []string) (string, error) {
 	hasher := GetHasher()
 
-	_, err := hasher.WriteString(target.Label.String())
-	_, err = hasher.WriteString(target.Command)
-	_, err = hasher.WriteString(sorted(target.Inputs))
-	_, err = hasher.WriteString(sorted(target.OutputDefinitions()))
-	_, err = hasher.WriteString(sorted(dependencyHashes))
-	_, err = hasher.WriteString(sortedKeyValue(target.Fingerprint))
+	writeField(hasher, target.Label.String())
+	writeField(hasher, target.Command)
+	writeSortedList(hasher, target.Inputs)
+	writeSortedList(hasher, target.OutputDefinitions())
+	writeSortedList(hasher, dependencyHashes)
+	writeSortedKeyValues(hasher, target.Fingerprint)
 	if !target.IsMultiplatformCache() {
-		_, err = hasher.WriteString(config.Global.GetPlatform())
+		writeField(hasher, config.Global.GetPlatform())
 	}
 
-	if err != nil {
-		return "", err
-	}
 	// Return the hash as a hexadecimal string.
 	return hasher.SumString(), nil
 }
 
-func sorted(s []string) string {
-	slices.Sort(s)
-	return strings.Join(s, ",")
+// writeField writes a single length-prefixed string to the hasher.
+func writeField(hasher Hasher, field string) {
+	_, _ = hasher.WriteString(strconv.Itoa(len(field)))
+	_, _ = hasher.WriteString(":")
+	_, _ = hasher.WriteString(field)
 }
 
-func sortedKeyValue(m map[string]string) string {
-	if len(m) == 0 {
-		return ""
+// writeSortedList writes the number of elements followed by each element in sorted order.
+func writeSortedList(hasher Hasher, list []string) {
+	sortedList := slices.Clone(list)
+	slices.Sort(sortedList)
+	writeField(hasher, strconv.Itoa(len(sortedList)))
+	for _, element := range sortedList {
+		writeField(hasher, element)
 	}
+}
 
-	entries := make([]string, 0, len(m))
-	for k, v := range m {
-		entries = append(entries, fmt.Sprintf("%s=%s", k, v))
+// writeSortedKeyValues writes the number of entries followed by each key and value sorted by key.
+func writeSortedKeyValues(hasher Hasher, m map[string]string) {
+	keys := make([]string, 0, len(m))
+	for key := range m {
+		keys = append(keys, key)
 	}
-
-	return sorted(entries)
+	slices.Sort(keys)
+	writeField(hasher, strconv.Itoa(len(keys)))
+	for _, key := range keys {
+		writeField(hasher, key)
+		writeField(hasher, m[key])
+	}
 }
